@@ -459,3 +459,20 @@ for zpe in (False, True):
              args=dict(self=species(), T=T, include_ZPE=Const(zpe)), requires=SREQ[:1] + SREQ[2:],
              ensures=["result == self.elec_model.get_UoRT(T=T)" +
                       (" + self.vib_model.get_ZPE() / (const.R('eV/K') * T)" if zpe else '')])
+
+# ---- a referenced species: the relations hold with the reference adjustment switched on and off -----------------------
+def species_with_references():
+    return New(SM, name=Const('A'), trans_model=ft3(), elec_model=gse(), nucl_model=New(NU + 'EmptyNucl'),
+               elements=DictOf({'H': Real(0., 8.), 'O': Real(0., 4.)}),
+               references=Fields('pmutt.empirical.references:References', offset=DictOf({'H': Real(-50., 50.), 'O': Real(-50., 50.)}),
+                                 T_ref=Real(290., 310.), descriptor=Const('elements'), references=Const(None)))
+
+
+for flag in (True, False):
+    CALL = 'T=T, P=P, use_references=%s' % flag
+    lemma('referenced-species:relations[use_references=%s]' % flag, P, forall=dict(self=species_with_references(), T=T, P=PRES),
+          given=['T > 0', 'P > 0', 'self.trans_model.molecular_weight > 0', 'self.elec_model.spin >= 0'],
+          prove=[('G=H-TS', 'self.get_GoRT(%s) == self.get_HoRT(%s) - self.get_SoR(%s)' % (CALL, CALL, CALL)),
+                 ('dH/dT=Cp', 'D(T * self.get_HoRT(%s), T) == self.get_CpoR(%s)' % (CALL, CALL)),
+                 ('dimensional-G=H-TS', "self.get_G(units='kJ/mol', %s) == self.get_H(units='kJ/mol', %s) - T * self.get_S(units='kJ/mol/K', %s)"
+                  % (CALL, CALL, CALL.replace('T=T, ', '') + ', T=T'))])
